@@ -45,6 +45,7 @@ impl World {
     }
 
     pub fn ev(&mut self, actor: &str, kind: &str, detail: Value) {
+        let _p = crate::alloc::pause();
         let seq = self.log.len() as u64;
         let t_ns = self.now_ns();
         self.log.push(Event {
